@@ -264,6 +264,10 @@ def infeasible_items(tier):
                 g = {"id": "g", "children": ms if not nest else [{"id": "h", "children": ms}]}
                 tasks = [g, T("t", deps=["g"])] + ([T("o")] if extra else [])
                 add(f"container of dated milestones alap={alap} extra={extra} nest={nest}", {"alap": alap, "resources": R, "tasks": tasks})
+    # duration / length statements, plain and scenario-prefixed (they are accepted by the grammar)
+    for body in ("duration 2d", "length 2d", "delayed:duration 2d", "delayed:length 2d", "plan:duration 1d", "duration 2d\n  delayed:duration 3d"):
+        add(f"task with {body!r}", text='project p "P" 2025-01-06 +3w {\n  scenario plan "Plan" {\n    scenario delayed "Delayed"\n  }\n}\nresource r1 "r1" {\n}\n'
+                                      f'task a "a" {{\n  {body}\n}}\ntask b "b" {{\n  effort 2h\n  allocate r1\n  depends a\n}}\n')
     # project durations in every unit and with decimals; dates given by (known and unknown) macro references
     for dur in ("36h", "90min", "1.5w", "0.5m", "2.5d", "1y", "1.5y", "0d"):
         add(f"project duration +{dur}", {"dur": dur, "resources": R, "tasks": [T("a"), T("b", deps=["a"])]})
